@@ -472,12 +472,13 @@ func genCase(t *rapid.T) Case {
 
 func TestC04(t *testing.T) {
 	defer rig.StopAll()
-	rec.SetRule("assignments of per-candidate outcomes to up to 3 endpoints: asserted {ok, refuse, connect timeout (a local address whose accept queue is full, so dials time out after proxy.connection_timeout = 0.5 s), reset-before-headers, circuit-open (olla engine, opened through the exported breaker API)} and explored {closed-without-answer, garbage}; all asserted tuples (and all explored tuples up to length 2; length 3 in thorough) x 3 balancers x 2 engines are enumerated, rapid adds request bodies/methods and warm-up histories; the client response, per-backend attempt counts and request fingerprints, repository statuses, five follow-up requests, a health-check readmission and a second outage of the readmitted endpoint are judged. Sub-check 'fanout': 2..48 simultaneous requests spread round-robin over 1..48 never-seen reachable endpoints (each request is the first its endpoint ever gets): all must be served, each exactly once. non-trivial = >=2 candidates with the first-tried one failing; distinct by (engine, balancer, outcome tuple, warm-up, method)")
+	rec.SetRule("assignments of per-candidate outcomes to up to 3 endpoints: asserted {ok, refuse, connect timeout (a local address whose accept queue is full, so dials time out after proxy.connection_timeout = 0.5 s), reset-before-headers, circuit-open (olla engine, opened through the exported breaker API)} and explored {closed-without-answer, garbage}; all asserted tuples (and all explored tuples up to length 2; length 3 in thorough) x 3 balancers x 2 engines are enumerated, rapid adds request bodies/methods and warm-up histories; the client response, per-backend attempt counts and request fingerprints, repository statuses, five follow-up requests, a health-check readmission and a second outage of the readmitted endpoint are judged. Sub-check 'fanout': 2..48 simultaneous requests spread round-robin over 1..48 never-seen reachable endpoints (each request is the first its endpoint ever gets): all must be served, each exactly once. Sub-check 'overlap': 1..3 requests are parked on endpoint E when E resets the next request, which fails over to F; the parked requests then complete successfully: E must stay out of rotation (status and 2..5 follow-up requests) until a health check readmits it. non-trivial = >=2 candidates with the first-tried one failing; distinct by (engine, balancer, outcome tuple, warm-up, method)")
 	rec.Assume("for explored outcomes (close without answer, garbage) only at-most-once, no mixing and no 2xx without a working candidate are asserted")
-	if ev.Replay(t, rec, "failover", runCase) || ev.Replay(t, rec, "fanout", runFan) {
+	if ev.Replay(t, rec, "failover", runCase) || ev.Replay(t, rec, "fanout", runFan) || ev.Replay(t, rec, "overlap", runOverlap) {
 		return
 	}
 	enumerate()
 	ev.Check(t, rec, "failover", rec.Pick(200, 4000), genCase, runCase)
 	ev.Check(t, rec, "fanout", rec.Pick(40, 600), genFan, runFan)
+	ev.Check(t, rec, "overlap", rec.Pick(12, 400), genOverlap, runOverlap)
 }
